@@ -590,3 +590,4 @@ M("m105", "C08", "R8.1", VI, "        for _ in range(max_iterations):\n         
   "        for _ in range(self.iteration, max_iterations):\n            self.iteration += 1\n            new_values, conv = self._iteration_step()\n            self.values = new_values\n\n            logger.info(\n                f\"Iteration {self.iteration}: {self._convergence_desc}",
   "loop bound treats max_iterations as a cap on the total counter (from seeded change C08)")
 B("b38", ["C08", "C09", "C12", "C01"], RVI, "        for _ in range(max_iterations):", "        for _ in range(0, max_iterations):", "range spelled with an explicit start")
+B("b39", ["C09", "C10"], RVI, "        self.gain = solver_state.info.gain\n", "        self.gain = float(solver_state.info.gain)\n        logger.debug(\"state restored\")\n", "restore through a transparent wrapper plus a log line")
